@@ -27,7 +27,7 @@ ASSUMPTIONS = [
     'literal constants are type-checked before the laziness comparison',
     'payloads never invoke their lazy arguments',
 ]
-REQUIRED = {'families': 300, 'calls': 1500, 'outcome.ran': 300, 'outcome.unknown': 20, 'outcome.no-match': 100,
+REQUIRED = {'families': 300, 'families.keyword-specificity': 30, 'calls': 1500, 'outcome.ran': 300, 'outcome.unknown': 20, 'outcome.no-match': 100,
             'outcome.ambiguous': 50, 'outcome.translation': 5, 'rule.most specific': 30, 'rule.laziness differs': 5,
             'feature.skip': 50, 'feature.keyword': 100, 'feature.constant': 50, 'feature.method': 100,
             'feature.exclusive': 30, 'feature.hidden': 100, 'feature.varargs': 50, 'feature.kwonly': 30,
@@ -91,7 +91,9 @@ def gen_overload(rng, tag, kind, no_kwargs, lazy_ok):
             p.has_default, p.default = True, None
             if not p.hidden:
                 p.nullable = True
-    return fam.OverloadSpec(tag, params, kind=kind, no_kwargs=no_kwargs)
+    spec = fam.OverloadSpec(tag, params, kind=kind, no_kwargs=no_kwargs)
+    spec.decor_seed = rng.randrange(10 ** 6)
+    return spec
 
 
 def gen_family(rng):
@@ -112,6 +114,25 @@ def gen_family(rng):
         layers.append(layer)
         exclusive.append(bool(layer) and rng.random() < 0.15)
     return layers, exclusive
+
+
+def gen_kw_family(rng):
+    """several overloads of one layer that all match a call made entirely by keyword: specificity must be compared
+    parameter by parameter (by name), whatever order each overload declared its parameters in"""
+    n = rng.choice((2, 2, 3))
+    names = NAMES[:n]
+    layer = []
+    for t in range(rng.choice((2, 3, 3))):
+        params = [fam.ParamSpec(nm, rng.choice(['object', 'A', 'B', 'C']), True) for nm in names]
+        spec = fam.OverloadSpec('K%d' % t, params, kind='function')
+        spec.decor_seed = rng.randrange(10 ** 6)
+        layer.append(spec)
+    kw = list(names)
+    rng.shuffle(kw)
+    npos = rng.choice((0, 0, 1))
+    args = [rng.choice('bc') for _ in range(npos)]
+    call = mr.CallSpec(args, {nm: rng.choice('bcc') for nm in kw if names.index(nm) >= npos})
+    return [layer], [False], call
 
 
 def gen_call(rng, layers):
@@ -140,7 +161,7 @@ def gen_call(rng, layers):
     if not any_no_kwargs:
         # with a skipped slot, a keyword naming a positional parameter could push the empty slot into *args
         kwnames = ['ko', 'zz'] if mr.SKIP in args else NAMES + ['ko', 'zz']
-        for _ in range(rng.choice((0, 0, 0, 1, 1, 2))):
+        for _ in range(rng.choice((0, 0, 0, 1, 1, 2, 2, 3))):
             name = rng.choice(kwnames)
             kwargs[name] = rng.choice(list('abcdisn') + ['const:int', 'const:null'])
         bad = rng.random() < 0.04
@@ -388,6 +409,12 @@ def run_shard(spec, rec):
     r = Runner(rec)
     try:
         for i in range(spec['families']):
+            if i % 6 == 5:
+                layers, exclusive, call = gen_kw_family(rng)
+                rec.count('families')
+                rec.count('families.keyword-specificity')
+                r.check(layers, exclusive, call, '%s/%d/kw' % (spec['name'], i))
+                continue
             layers, exclusive = gen_family(rng)
             if not any(layers):
                 continue
@@ -405,7 +432,9 @@ def run_shard(spec, rec):
 def spec_from_desc(d):
     params = [fam.ParamSpec(p['name'], p['type'], p['nullable'], p.get('default'), 'default' in p, p.get('lazy', False),
                             p.get('hidden'), p['kind']) for p in d['params']]
-    return fam.OverloadSpec(d['tag'], params, d['kind'], d['no_kwargs'])
+    spec = fam.OverloadSpec(d['tag'], params, d['kind'], d['no_kwargs'])
+    spec.decor_seed = d.get('decor_seed')
+    return spec
 
 
 def replay(data, rec):
